@@ -907,6 +907,9 @@ func (ex *Exec) jumpTo(fr *frame, to *ssa.BasicBlock) {
 		if l, ok := ex.job.UnwindFn[fr.fn.String()]; ok {
 			lim = l
 		}
+		if fr.fn.Pkg != nil && !strings.HasPrefix(fr.fn.Pkg.Pkg.Path(), "github.com/vulcand/oxy/v2") && lim < 4096 {
+			lim = 4096 // library code (table initialisers, byte loops over concrete data)
+		}
 		if fr.backEdges[to] > ex.maxUnwind {
 			ex.maxUnwind = fr.backEdges[to]
 		}
